@@ -173,3 +173,16 @@ PROPS["C19"] = {
     ],
     "assumptions": ["fidelity is judged with tables enabled; task-list check marks and ordered-list numbers are not rendered by the converter (the item text is)"],
 }
+
+PROPS["C20"] = {
+    "n": {"quick": 1200, "thorough": 25000},
+    "per_shard": 80,
+    "corr_targets": ["Corr/MdWriteCorr.vo"],
+    "corr": "Corr/MdWriteCorr.v: Model.MdWrite.write on the blocks of a generated document under the export options vs the string Exporter.ExportToString returns, byte for byte",
+    "trusted_base": [
+        "Model/MdWrite.v is hand-written from writer.go; texts are treated as bytes (strings.TrimSpace is modelled for ASCII white space)",
+        "the round trip (ConvertString of the exported Markdown gives the same blocks, text and per-character formatting; a second export gives the same Markdown) goes through goldmark and is decided by the harness, not by a theorem",
+        "the harness compares texts with runs of blanks as one blank and without blanks at block ends (Markdown cannot express them)",
+    ],
+    "assumptions": ["footnotes, metadata header and pictures are not generated"],
+}
